@@ -57,7 +57,11 @@ def split_sections(line):
                 continue
         out[cur].append(t)
         i += 1
-    return {k: tuple(v) for k, v in out.items()}
+    res = {k: tuple(v) for k, v in out.items()}
+    # derived key: the role alone (SEC_HARD = term vote role leader_id votes...)
+    if len(res.get("hard", ())) >= 3:
+        res["hard.role"] = (res["hard"][2],)
+    return res
 
 
 def diff_keys(model_line, impl_line):
@@ -83,7 +87,7 @@ def cache_key(tier, seed):
     for p in (C.VH, C.DRIVER):
         st = os.stat(p)
         h.update(("%s:%d:%d" % (p, st.st_mtime_ns, st.st_size)).encode())
-    h.update(("v10:%s:%s" % (tier, seed)).encode())
+    h.update(("v12:%s:%s" % (tier, seed)).encode())
     return h.hexdigest()[:16]
 
 
